@@ -19,7 +19,7 @@ SPEC = {
         {"name": "tlsframe", "pkg": "./tlsframe", "search_cases": 200, "timeout_quick": 300},
         # "a broadcast reaches every peer": memberlist transmits an update a bounded number of times, the rest of the fan-out is the
         # re-broadcast by every receiver whose Merge accepted it (C09's engine: what Silences.Merge hands back to its broadcast function)
-        {"name": "silmerge", "pkg": "./silmerge", "search_cases": 20000, "quick_cases": 1500, "only": ["merge_relays_accepted"]},
+        {"name": "silmerge", "pkg": "./silmerge", "search_cases": 20000, "quick_cases": 1500, "only": ["merge_relays_accepted", "full_state_superset"]},
     ],
     "rule": "gossip: two real cluster delegates (tagged export) over last-writer-wins test states with registries drawn from {sil,nfl},{sil},{nfl},{nfl,sil,xtra}; "
             "NotifyMsg with well-formed parts (known / unknown key, good / rejected payload) and arbitrary bytes; MergeRemoteState with 1-3 parts incl. rejected "
